@@ -29,6 +29,9 @@ func init() {
 	ruleText["R12.6"] = "every entry of binaryOpPredicates / unaryOpPredicates accepts exactly the reflect kinds of the operand classes the Go specification gives the operator (kind sets read from the bodies of the kind predicates; disjunctions only), the tables are complete, and isInt/isUint/isFloat/isComplex/isBoolean/isString/isNumber list exactly the kinds of their class"
 	ruleText["R12.7"] = "on the flow graph of (*itype).assignableTo pruned under (A1) both operands named, unequal, underlying types differ and under (A2) both named, unequal, neither defined from the other, every reachable return is `return false`"
 	ruleText["R12.8"] = "the len/cap case of typecheck.builtin accepts Array, Slice, Chan for both and String, Map only under name == bltnLen; on the flow graph of arrayDeref pruned under 'the argument is a pointer to a slice' (helpers evaluated three-valued) every reachable return yields the argument itself"
+	ruleText["R12.9"] = "same analysis as C01/R01.1: the node kinds that push a scope in cfg's pre-order pass are those that pop one in the post-order pass, and no post-order case leaves (return, break) before popping unless guarded by the pass's error"
+	ruleText["R12.10"] = "on the flow graph of the method loop of typeAssertionExpr pruned under tm == nil, im != nil, isBin(typ) == false, no continue and no fall-through is reachable: every path returns an error"
+	ruleText["R12.11"] = "the bound each caller passes to typecheck.index (operand length plus an offset read from the argument expression and the caller's assignments) is consistent with the helper's comparison: with `>=`, 0 for element accesses and +1 for slice bounds; with `>`, -1 and 0"
 	ruleText["R12.5"] = "(a) inside the callbacks of cfg/gta no variable that shadows the pass's error variable receives the error of an in-package call; (b) every post-order case of cfg that wires the false branch of a condition child (setFNext on a local bound from n.child[k]) also checks that the condition is boolean, like its siblings"
 	ruleText["R12.4"] = "every method of type typecheck is reachable from (*Interpreter).cfg on the static call graph (a rule whose call was dropped is dead code)"
 }
@@ -47,6 +50,20 @@ func runC12(c *Config, r *Report) {
 	c12R6(ic, r)
 	c12R7(ic, r)
 	c12R8(ic, r)
+	c12R10(ic, r)
+	c12R11(ic, r)
+	// R12.9: an identifier is reported as undefined only if the scopes are balanced: a scope left
+	// on the stack keeps the identifiers of a function visible to the code that follows (same
+	// analysis as C01/R01.1, including the path rule: no case leaves before popping its scope).
+	{
+		sub := newReport("C01")
+		c01R1(ic, sub)
+		for _, o := range sub.Obls {
+			o.Rule = "R12.9"
+			r.add(o)
+		}
+		r.Errors = append(r.Errors, sub.Errors...)
+	}
 }
 
 // shadow exceptions: function -> callee, with the reason.
